@@ -174,6 +174,62 @@ class ReplayPool:
         return self.results[key]
 
 
+# ------------------------------------------------------------------------------------------ solver calls with a hard deadline
+def check_with_deadline(solver, timeout_ms):
+    """solver.check() that really stops: z3's own `timeout` is only polled at certain points (quantifier instantiation can overrun
+    it by minutes), so a watchdog interrupts the context at 1.5 x the budget.  An interrupted check is `unknown` (undecided)."""
+    import threading
+    solver.set('timeout', int(timeout_ms))
+    lock, state = threading.Lock(), {'done': False}
+    ctx = solver.ctx                      # the closure must not keep the solver alive (z3 objects have to die before their context)
+
+    def fire():
+        with lock:
+            if not state['done']:
+                ctx.interrupt()
+    timer = threading.Timer(timeout_ms * 1.5 / 1000.0 + 0.5, fire)
+    timer.daemon = True
+    timer.start()
+    try:
+        r = solver.check()
+    except z3.Z3Exception:
+        r = z3.unknown
+    finally:
+        with lock:
+            state['done'] = True
+        timer.cancel()
+        timer.join()
+        timer.function = None
+    return r
+
+
+def discharge(run, formula, npc=None, nax=None, timeout_ms=10000, extra=()):
+    """engine.discharge with the hard deadline: pc[:npc] & axioms[:nax] & extra |= formula -> ('unsat'|'sat'|'unknown', model|reason, s)"""
+    t0 = time.time()
+    s = z3.Solver()
+    for c in (run.pc if npc is None else run.pc[:npc]):
+        s.add(c)
+    for c in (run.axioms if nax is None else run.axioms[:nax]):
+        s.add(c)
+    for c in extra:
+        s.add(c)
+    lits = pm.all_str_lits()
+    if len(lits) > 1:
+        s.add(z3.Distinct(*lits))
+    s.add(z3.Not(formula) if not isinstance(formula, bool) else z3.BoolVal(not formula))
+    r = check_with_deadline(s, timeout_ms)
+    dt = time.time() - t0
+    if r == z3.unsat:
+        return 'unsat', None, dt
+    if r == z3.sat:
+        return 'sat', s.model(), dt
+    try:
+        why = s.reason_unknown()
+    except z3.Z3Exception:
+        why = 'interrupted'
+    return 'unknown', why, dt
+
+
 # ------------------------------------------------------------------------------------------ contracts
 class Inst:
     __slots__ = ('verdict', 'model', 'dt', 'path', 'formula')
@@ -207,7 +263,7 @@ class Contract:
                                 detail='only %d terminating paths explored (expected >= %d)' % (len(live), expect_paths))
         # vacuity guard (DESIGN 2.8): path condition + axioms of a terminating path must not be refutable
         for p in live[:3]:
-            v, _, _ = E.discharge(p.run, z3.BoolVal(False), timeout_ms=400)
+            v, _, _ = discharge(p.run, z3.BoolVal(False), timeout_ms=400)
             if v == 'unsat':
                 self.chk.obligation('%s.vacuity' % self.fname, self.fname, 'checker', report.ERROR, 0.0,
                                     detail='the assumptions/axioms of a terminating path are inconsistent (everything would be provable)')
@@ -229,7 +285,7 @@ class Contract:
                     # already undecided twice: do not burn the budget again on every further path
                     v, m, dt = 'unknown', 'skipped after repeated solver budget exhaustion on other paths', 0.0
                 else:
-                    v, m, dt = E.discharge(p.run, f, npc, nax, timeout_ms=self.timeout_ms)
+                    v, m, dt = discharge(p.run, f, npc, nax, timeout_ms=self.timeout_ms)
                     if v == 'unknown':
                         unk[n] = unk.get(n, 0) + 1
                 if n not in self.by_name:
